@@ -12,6 +12,7 @@ CONSTANTS
   HaveExceptions = %(exc)s
   MaxSet = %(maxset)d
   Locs = {%(locs)s}
+  OrderStrict = TRUE
   Mode = "%(mode)s"
   MaxTests = %(maxtests)d
   Evs = {%(evs)s}
@@ -24,6 +25,7 @@ CONSTANTS
   HaveExceptions = %(exc)s
   MaxSet = %(maxset)d
   Locs = {%(locs)s}
+  OrderStrict = %(strict)s
 %(tail)s
 CHECK_DEADLOCK FALSE
 """
@@ -83,8 +85,9 @@ def unique_names(p):
     return True
 
 
-def trace_cfgs(ctx, tag, cap, maxset, exc=True):
-    base = {"cap": cap, "exc": "TRUE" if exc else "FALSE", "maxset": maxset, "locs": ", ".join(str(i) for i in range(1, NLOC + 1))}
+def trace_cfgs(ctx, tag, cap, maxset, exc=True, strict=False):
+    base = {"cap": cap, "exc": "TRUE" if exc else "FALSE", "maxset": maxset, "locs": ", ".join(str(i) for i in range(1, NLOC + 1)),
+            "strict": "TRUE" if strict else "FALSE"}
     t = ctx.write_cfg("Trace_TestRun_" + tag, TRACE % dict(base, spec="TSpec", tail="INVARIANT TInv\nCONSTRAINT Track\nPOSTCONDITION Accepted"))
     p = ctx.write_cfg("Predict_TestRun_" + tag, TRACE % dict(base, spec="PSpec", tail="INVARIANT Predict"))
     return t, p
@@ -121,9 +124,32 @@ def run_programs(ctx, exe, label, progs, tcfg, pcfg, timeout=600, tlc_timeout=12
     return n
 
 
-def replay(ctx, exe, cap, maxset, exc=True):
+def replay(ctx, exe, cap, maxset, exc=True, strict=False):
     rp = json.load(open(ctx.replay))
     ex = [l.split("\t") for l in rp["script"]]
-    tcfg, pcfg = trace_cfgs(ctx, "replay", cap, maxset, exc)
+    tcfg, pcfg = trace_cfgs(ctx, "replay", cap, maxset, exc, strict)
     conform(ctx, "replay", [ex], lambda s, l: ctx.run([exe, s, l], timeout=120), "Trace_TestRun", tcfg, pcfg, key_fn, end_op="ret")
     return ctx.finish("replay of one recorded program", 2)
+
+
+def order_leg(ctx, nontrivial=None):
+    """C12 (documented meaning of -b and -r): without shuffling every repetition runs the registry in the same order, reversed iff -b.
+    Programs of 2-6 passing tests x reverse x repeat 1..4 (x run-ignored) through the real command line; Trace_TestRun with OrderStrict."""
+    exe = ctx.build_harness("testrun", "asan", out="testrun_order")
+    cap, maxset = probe_constants(ctx, exe)
+    ok3 = [([], "ok"), ([], "ok"), ([], "ok")]
+    progs = []
+    for n in ((2, 3, 5) if ctx.quick else (1, 2, 3, 4, 5, 6, 9)):
+        for rev in (False, True):
+            for rep in ((1, 2, 3) if ctx.quick else (1, 2, 3, 4, 5)):
+                for ri in (False, True):
+                    tests = [{"g": "G%d" % (i // 2), "n": "t%d" % i, "ign": (i % 3 == 1), "ph": ok3} for i in range(n)]
+                    progs.append({"repeat": rep, "reverse": rev, "shuffle": False, "runIgnored": ri, "gf": [], "nf": [], "plugins": [], "draws": None,
+                                  "seed": 7, "tests": tests})
+    tcfg, pcfg = trace_cfgs(ctx, "order", cap, maxset, True, strict=True)
+    run_programs(ctx, exe, "order-b-r", progs, tcfg, pcfg)
+    if nontrivial is not None:
+        for p in progs:
+            if p["reverse"] and p["repeat"] > 1:
+                nontrivial.add(json.dumps(p, sort_keys=True))
+    return len(progs)
